@@ -7,3 +7,4 @@ import ZbossModel.Props.C09
 #print axioms Zboss.Frag.lastFrag_facts
 #print axioms Zboss.Frag.C09_partition
 #print axioms Zboss.Frag.stamp_mid
+#print axioms Zboss.Frag.C09_source_exprs
